@@ -118,16 +118,16 @@ def shared(tier, seed):
     return out
 
 
-def core_frames():
+def core_frames(tier="thorough"):
     import c12
-    fr = c12.core_frame_instances(ops=(0, 2, 4))
+    fr = c12.core_frame_instances(ops=(0, 2, 4), tier=tier)
     for i in fr:
         i.core = "keyswitch_b12_12_kin24_kk36_ko36_ds1_dn2_r11_p0_sym2" in i.name
     return fr
 
 
 def instances(tier, seed):
-    return dft_instances() + svp_instances() + vmp_instances() + shared(tier, seed) + core_frames()
+    return dft_instances() + svp_instances() + vmp_instances() + shared(tier, seed) + core_frames(tier)
 
 
 META = {
